@@ -10,16 +10,18 @@ import z3
 from .vals import LAT, TYP, Val, sub, K, Unsupported
 
 Z3_TIMEOUT_MS = int(os.environ.get('PYVC_Z3_TIMEOUT_MS', '30000'))
+CVC5_TIMEOUT_S = int(os.environ.get('PYVC_CVC5_TIMEOUT_S', '60'))
 
 
 class Obl(object):
     """one proof obligation: under the path condition of `st`, `clause` must hold"""
-    def __init__(self, name, prop, st, clause, oc=None, finding=None, expect_refuted=False):
+    def __init__(self, name, prop, st, clause, oc=None, finding=None, expect_refuted=False, z3_timeout_ms=None):
         self.name, self.st, self.clause, self.oc = name, st, clause, oc
         self.props = (prop,) if isinstance(prop, str) else tuple(prop)     # an obligation can carry several properties (first = primary)
         self.prop = self.props[0]
         self.finding = finding              # id in known_findings.json this obligation is the witness of (expected to be refuted)
         self.expect_refuted = expect_refuted
+        self.z3_timeout_ms = z3_timeout_ms      # string-heavy obligations: give up on z3 early and let cvc5 decide
 
 
 def cls_name(m, c):
@@ -76,7 +78,7 @@ def discharge(o, model_vars=None):
     t0 = time.time()
     if _DS['st'] is not o.st or _DS.get('nax') != len(LAT.axioms()):
         so = z3.Solver(); so.add(LAT.axiom()); so.add(o.st.pcand); _DS.update(st=o.st, so=so, nax=len(LAT.axioms()))
-    so = _DS['so']; so.set('timeout', Z3_TIMEOUT_MS)
+    so = _DS['so']; so.set('timeout', o.z3_timeout_ms or Z3_TIMEOUT_MS)
     so.push(); so.add(z3.Not(o.clause))
     r = so.check()
     res = {'name': o.name, 'prop': o.prop, 'time': 0, 'backend': 'z3', 'finding': o.finding,
@@ -104,6 +106,16 @@ def discharge(o, model_vars=None):
             res['script'] += ' model={%s}' % ', '.join('%s=%s' % kv for kv in sorted(mv.items()) if not kv[0].endswith('.callable'))[:400]
     else:
         res['verdict'] = 'undecided'; res['reason'] = so.reason_unknown()
+        # z3 gave up: hand the same query to cvc5 (strings / sequences are often decided there)
+        try:
+            from . import smt
+            ans = smt.run_cvc5('(set-logic ALL)\n' + so.to_smt2(), CVC5_TIMEOUT_S)
+            if ans == 'unsat':
+                res['verdict'] = 'valid'; res['backend'] = 'cvc5'; res.pop('reason', None)
+            elif ans == 'sat':
+                res['reason'] = 'z3: %s; cvc5: sat (no model extracted: undecided, not a violation)' % res['reason']
+        except Exception as ex:
+            res['reason'] = '%s; cvc5 fallback failed: %s' % (res.get('reason'), ex)
     so.pop()
     res['time'] = round(time.time() - t0, 4)
     return res
